@@ -14,10 +14,11 @@ def gen(tier, rnd):
     cases = []
     cid = [0]
 
-    def case(cidn, ckey, table, hint='srv', acc=1, nq=2, inj=0, rel=0, idcb=1, drop=()):
+    def case(cidn, ckey, table, hint='srv', acc=1, nq=2, inj=0, rel=0, idcb=1, drop=(), sni='', warm='', snik=()):
         cid[0] += 1
-        cases.append((cid[0], ['X id=%d cid=%s ckey=%s sk=%s hint=%s acc=%d nq=%d inj=%d rel=%d idcb=%d drop=%s'
-                               % (cid[0], cidn, ckey, ','.join('%s:%s' % kv for kv in table), hint, acc, nq, inj, rel, idcb, ','.join(map(str, drop))), 'E']))
+        cases.append((cid[0], ['X id=%d cid=%s ckey=%s sk=%s hint=%s acc=%d nq=%d inj=%d rel=%d idcb=%d drop=%s sni=%s warm=%s snik=%s'
+                               % (cid[0], cidn, ckey, ','.join('%s:%s' % kv for kv in table), hint, acc, nq, inj, rel, idcb, ','.join(map(str, drop)),
+                                  sni, warm, ','.join('%s:%s' % kv for kv in snik)), 'E']))
     K = 'secretkey0123456'
     keys = [K, K[:-1], K + 'x', K[:8], 'S' + K[1:], K.upper(), 'a', K * 2]
     # equal / different length / prefix / extension / one character off
@@ -35,6 +36,19 @@ def gen(tier, rnd):
         case('alice', K, [('alice', K)], acc=0, nq=nq)
         case('alice', K, [('alice', K)], acc=0, nq=nq, rel=5000)
         case('alice', K, [('alice', K)], hint='', acc=1, nq=nq)
+    # the server sends no hint and the client's callback refuses: the (empty) hint has to be put to the callback all the same
+    for nq in (0, 2):
+        case('alice', K, [('alice', K)], hint='', acc=0, nq=nq)
+        case('alice', K, [('alice', K)], hint='', acc=0, nq=nq, idcb=0)
+    # per-server-name keys: the name selects the key - on the first session that names it and on later ones (warm: the server has seen the name before)
+    K2, K3 = 'hostkey-22222222', 'otherhost-333333'
+    snik = [('host.example', K2), ('other.example', K3)]
+    for warm in ('', 'host.example', 'other.example'):
+        for (sn, ck) in (('host.example', K2), ('host.example', K), ('host.example', K3), ('other.example', K3), ('other.example', K2), ('nohost.example', K),
+                         ('nohost.example', K2)):
+            case('alice', ck, [('alice', K)], nq=2, idcb=0, sni=sn, warm=warm, snik=snik)
+    case('alice', K, [('alice', K)], nq=1, idcb=0, sni='', snik=snik)                       # no name asked for: not in the table
+    case('alice', K, [('alice', K)], nq=1, idcb=0, sni='', snik=snik + [('', K)])
     # session released by the application at various times while the handshake cannot complete / has completed
     for rel in (1, 100, 5000, 100000, 400000):
         case('alice', 'wrongkey', [('alice', K)], nq=2, rel=rel)
